@@ -90,22 +90,24 @@ func buildKey() (string, error) {
 }
 
 type engineBuild struct {
-	name string   // binary name in the cache dir
-	pkg  string   // package directory inside the copy
-	race bool     // build with -race
-	plain bool    // built from the un-instrumented tree
-	tags string
+	name  string // binary name in the cache dir
+	pkg   string // package directory inside the copy
+	race  bool   // build with -race
+	plain bool   // built from the un-instrumented tree
+	bin   bool   // the real binary (go build with the default toolchain), not a test binary
+	tags  string
 }
 
 var engineBuilds = map[string]engineBuild{
-	"pipesim":      {name: "pipesim.test", pkg: "./processing"},
-	"pipesim-race": {name: "pipesim-race.test", pkg: "./processing", race: true},
-	"snapsim":      {name: "snapsim.test", pkg: "./snap"},
+	"pipesim":       {name: "pipesim.test", pkg: "./processing"},
+	"pipesim-race":  {name: "pipesim-race.test", pkg: "./processing", race: true},
+	"snapsim":       {name: "snapsim.test", pkg: "./snap"},
 	"snapsim-plain": {name: "snapsim-plain.test", pkg: "./snap", plain: true},
-	"gpkgsim":      {name: "gpkgsim.test", pkg: "./processing/gpkg"},
-	"gpkgsim-race": {name: "gpkgsim-race.test", pkg: "./processing/gpkg", race: true},
-	"toolsim":      {name: "toolsim.test", pkg: "."},
-	"toolsim-race": {name: "toolsim-race.test", pkg: ".", race: true},
+	"gpkgsim":       {name: "gpkgsim.test", pkg: "./processing/gpkg"},
+	"gpkgsim-race":  {name: "gpkgsim-race.test", pkg: "./processing/gpkg", race: true},
+	"toolsim":       {name: "toolsim.test", pkg: "."},
+	"toolsim-race":  {name: "toolsim-race.test", pkg: ".", race: true},
+	"texel-bin":     {name: "texel-verif", pkg: ".", plain: true, bin: true},
 }
 
 type buildInfo struct {
@@ -274,7 +276,13 @@ func ensureBuild(want []string) (*buildInfo, error) {
 			args = append(args, "-race")
 		}
 		args = append(args, eb.pkg)
-		if out, err := run(src, goEnv(), goNew, args...); err != nil {
+		tool := goNew
+		if eb.bin {
+			// the shipped toolchain (the one the baseline uses), un-instrumented tree
+			tool = "go"
+			args = []string{"build", "-tags", "verif", "-o", filepath.Join(dir, eb.name), eb.pkg}
+		}
+		if out, err := run(src, goEnv(), tool, args...); err != nil {
 			return nil, fmt.Errorf("building %s failed: %v\n%s", w, err, out)
 		}
 	}
